@@ -69,6 +69,7 @@ func NewRegistry(o *Options) *minify.M {
 	m.AddFunc(MTStream, streamStub)
 	m.AddFunc(MTFail, failStub)
 	m.AddFunc(MTEarly, earlyStub)
+	m.AddFunc(MTWrap, wrapStub)
 	// external commands (this test binary as a helper, see HelperMain): nothing is spawned
 	// until one of these types is used
 	m.AddCmd(MTCmd, helperCmdArgs(900))
@@ -86,6 +87,7 @@ const (
 	MTStream = "text/x-stream"
 	MTFail   = "text/x-fail"
 	MTEarly  = "text/x-early"
+	MTWrap   = "text/x-wrap" // output even for empty input: shows whether the minifier ran at all
 	// served by external commands: stdin→stdout, $in→stdout, stdin→$out, $in→$out
 	MTCmd     = "text/x-cmd"
 	MTCmdIn   = "text/x-cmd-in"
@@ -137,6 +139,23 @@ func earlyStub(_ *minify.M, w io.Writer, r io.Reader, _ map[string]string) error
 		return err
 	}
 	_, err = w.Write(asciiUpper(buf[:n]))
+	return err
+}
+
+// wrapStub brackets its (upper-cased) input: unlike the six real minifiers it produces
+// output for an empty document, so "the minifier was never called" is visible in the bytes.
+func wrapStub(_ *minify.M, w io.Writer, r io.Reader, _ map[string]string) error {
+	if _, err := w.Write([]byte("[")); err != nil {
+		return err
+	}
+	b, err := io.ReadAll(r)
+	if err != nil {
+		return err
+	}
+	if _, err := w.Write(asciiUpper(b)); err != nil {
+		return err
+	}
+	_, err = w.Write([]byte("]"))
 	return err
 }
 
